@@ -5,9 +5,9 @@ from vcore import Case, Harness, sdk_sources, SDK_INCLUDES
 
 SHIM = ['-include', 'harness/shim/detsched.h', '-DNDEBUG']
 H_BSP = Harness('d_bsp', ['harness/d_batch.cc'], flags=SHIM, includes=SDK_INCLUDES, plain_srcs=['harness/shim/detsched.cc'],
-                sdk_srcs=sdk_sources('common') + ['sdk/src/trace/batch_span_processor.cc', 'sdk/src/trace/exporter.cc'])
+                sdk_srcs=sdk_sources('common') + ['sdk/src/trace/batch_span_processor.cc', 'sdk/src/trace/batch_span_processor_factory.cc', 'sdk/src/trace/exporter.cc'])
 H_BLP = Harness('d_blp', ['harness/d_batch.cc'], flags=SHIM + ['-DBATCH_LOGS'], includes=SDK_INCLUDES, plain_srcs=['harness/shim/detsched.cc'],
-                sdk_srcs=sdk_sources('common') + ['sdk/src/logs/batch_log_record_processor.cc', 'sdk/src/logs/exporter.cc'])
+                sdk_srcs=sdk_sources('common') + ['sdk/src/logs/batch_log_record_processor.cc', 'sdk/src/logs/batch_log_record_processor_factory.cc', 'sdk/src/logs/exporter.cc'])
 
 
 class Cfg:
@@ -15,7 +15,8 @@ class Cfg:
         toks = ' '.join(line.split()[1:]).split(' ; ')
         c = toks[0].split()
         self.kind = line.split()[0]
-        self.maxq, self.maxb, self.nprod, self.adds = int(c[0]), int(c[1]), int(c[2]), int(c[3])
+        self.ctor = c[0][-1] if not c[0][-1].isdigit() else ''     # how the processor is built (see d_batch.cc)
+        self.maxq, self.maxb, self.nprod, self.adds = int(c[0].rstrip('rfga')), int(c[1]), int(c[2]), int(c[3])
         self.fl = '' if c[4] == '-' else c[4]
         self.nshut = int(c[5])
         self.xs = '' if c[6] == '-' else c[6]
@@ -167,8 +168,10 @@ def gen_schedules(rng, tier, kinds=('bsp', 'blp'), flush=True, shut=True):
                 toks.append(f't{t}!')         # spurious weak-CAS failure in the queue
             else:
                 toks.append(f't{t}')
-        line = f'{kind} {maxq} {maxb} {nprod} {adds} {fl or "-"} {nshut} {xs} ; ' + ' ; '.join(toks)
-        out.append(Case(line, 'd_bsp' if kind == 'bsp' else 'd_blp', (kind, 'random', f'fl{len(fl)}sh{nshut}')))
+        # every way of building the processor (two / three constructors, two factory overloads) must configure the same one
+        ctor = rng.choice(['', '', 'r', 'f', 'g'] + (['a'] if kind == 'blp' else []))
+        line = f'{kind} {maxq}{ctor} {maxb} {nprod} {adds} {fl or "-"} {nshut} {xs} ; ' + ' ; '.join(toks)
+        out.append(Case(line, 'd_bsp' if kind == 'bsp' else 'd_blp', (kind, 'random', f'fl{len(fl)}sh{nshut}', 'ctor-' + (ctor or 'plain'))))
     return out
 
 
@@ -381,6 +384,11 @@ def batch_corpus():
     out.append(Case('bsp 3 1 1 3 i 0 s ; t2 ; t2 ; t2 ; t2 ; t2 ; t2 ; t1 ; t1 ; t1 ; t1 ; t1 ; t1 ; t1 ; t1 ; t1 ; t1 ; t1 ; t1 ; t1 ; t1 ; t1 ; t1 ; t0 ; t0 ; t0 ; t0 ; t0 ; t0 ; t0 ; t0 ; t0 ; t0 ; t0 ; t0', 'd_bsp', ('corpus', 'D01-flush-then-batch'), 'corpus'))
     out.append(Case('blp 3 1 1 3 i 0 s ; t2 ; t2 ; t2 ; t2 ; t2 ; t2 ; t1 ; t1 ; t1 ; t1 ; t1 ; t1 ; t1 ; t1 ; t1 ; t1 ; t1 ; t1 ; t1 ; t1 ; t1 ; t1 ; t1 ; t1 ; t0 ; t0 ; t0 ; t0 ; t0 ; t0 ; t0 ; t0 ; t0 ; t0 ; t0 ; t0', 'd_blp', ('corpus', 'D01-flush-then-batch'), 'corpus'))
     out.append(Case('bsp 4 2 1 3 i 1 s ; t0 ; t0 ; t0 ; t0 ; t0 ; t0 ; t1 ; t1 ; t1 ; t1 ; t1 ; t1 ; t1 ; t1 ; t1 ; t1 ; t1 ; t0 ; t0 ; t0 ; t0 ; t0', 'd_bsp', ('corpus', 'flush-and-shutdown'), 'corpus'))
+    # a burst larger than max_export_batch_size but within max_queue_size, through every constructor / factory overload
+    burst = ' ; '.join(['t1'] * 40 + ['t0'] * 40)
+    for kind, ctors in (('bsp', ['', 'r', 'f', 'g']), ('blp', ['', 'r', 'f', 'g', 'a'])):
+        for c in ctors:
+            out.append(Case(f'{kind} 4{c} 1 1 4 - 0 s ; {burst}', 'd_bsp' if kind == 'bsp' else 'd_blp', ('corpus', 'ctor-' + (c or 'plain')), 'corpus'))
     return out
 
 
